@@ -751,6 +751,26 @@ P("seed-C15-18", ["C15"], "seeded/C15-18/patch.diff")
 P("seed-C16-17", ["C16"], "seeded/C16-17/patch.diff")
 P("seed-C16-18", ["C16"], "seeded/C16-18/patch.diff")
 P("seed-C17-18", ["C17"], "seeded/C17-18/patch.diff")
+# round 13 (DESIGN 7.15): seeds reported by their own property's check (C14-17/18, C17-19/20, C01-19, C04-18 are open; C07-20 and C04-17 end in exit 2)
+P("seed-C02-19", ["C02"], "seeded/C02-19/patch.diff", rule="R-C02-5")
+P("seed-C02-20", ["C02"], "seeded/C02-20/patch.diff", rule="R-C02-10")
+P("seed-C07-19", ["C07"], "seeded/C07-19/patch.diff", rule="R-C07-2")
+P("seed-C08-17", ["C08"], "seeded/C08-17/patch.diff")
+P("seed-C08-18", ["C08"], "seeded/C08-18/patch.diff", rule="O2")
+P("seed-C09-17", ["C09"], "seeded/C09-17/patch.diff")
+P("seed-C09-18", ["C09"], "seeded/C09-18/patch.diff")
+P("seed-C10-19", ["C10"], "seeded/C10-19/patch.diff", rule="C10-R14")
+P("seed-C10-20", ["C10"], "seeded/C10-20/patch.diff", rule="C10-R14")
+P("seed-C11-19", ["C11"], "seeded/C11-19/patch.diff", rule="C10-R9")
+P("seed-C11-20", ["C11"], "seeded/C11-20/patch.diff", rule="C11-R5")
+P("seed-C13-17", ["C13"], "seeded/C13-17/patch.diff", rule="R-C13-4")
+P("seed-C13-18", ["C13"], "seeded/C13-18/patch.diff", rule="R-C13-5")
+P("seed-C18-17", ["C18"], "seeded/C18-17/patch.diff", rule="R-C18-4")
+P("seed-C18-18", ["C18"], "seeded/C18-18/patch.diff", rule="R-C18-1")
+P("seed-C19-17", ["C19"], "seeded/C19-17/patch.diff", rule="R-C19-4")
+P("seed-C19-18", ["C19"], "seeded/C19-18/patch.diff", rule="R-C19-4")
+P("seed-C20-17", ["C20"], "seeded/C20-17/patch.diff", rule="R-C20-5")
+P("seed-C20-18", ["C20"], "seeded/C20-18/patch.diff")
 B("c03-overlap-one-sided", ["C03"], "helpers.py", "    return max(start_1, start_2) < min(end_1, end_2)\n", "    return start_1 <= start_2 < end_1\n", rule="R-C03-10")
 N("c03-overlap-two-comparisons", ["C03", "C19"], "helpers.py", "    return max(start_1, start_2) < min(end_1, end_2)\n", "    return start_1 < end_2 and start_2 < end_1\n")
 
